@@ -10,7 +10,7 @@ import time
 import select
 from typing import Callable
 from .connection import ClientServerConnection, Packet, PacketHeader, \
-    ConnectionStatus, SendCallback, ConnectionStats
+    ConnectionStatus, SendCallback, ConnectionStats, RetryMode
 from . import crypto
 from .timer import Timer
 from .util import is_valid_ipv6_address
